@@ -444,6 +444,65 @@ func c21Gen(r *rng.R, i int) *Case {
 	return c
 }
 
+// c21Directed: boundary shapes that random generation reaches only with small probability: a well-shaped first
+// response followed by an empty / short / long one at every later position of a multi-response operation.
+func c21Directed() []*Case {
+	var cs []*Case
+	add := func(op string, p map[string]int, l []int) {
+		if p == nil {
+			p = map[string]int{}
+		}
+		cs = append(cs, &Case{ID: len(cs), Op: op, P: p, L: l})
+	}
+	// Browse with a continuation point, then k well-shaped BrowseNext answers, then one with n results (0, 1, 2)
+	for k := 0; k <= 2; k++ {
+		for _, n := range []int{0, 1, 2} {
+			l := []int{0, 1, 1}
+			for j := 0; j < k; j++ {
+				l = append(l, 0, 1, 1)
+			}
+			l = append(l, 0, n, 0)
+			add("refs", nil, l)
+		}
+	}
+	add("refs", nil, []int{0, 0, 0})
+	add("refs", nil, []int{0, 2, 1, 0, 0, 1})
+	// result arrays one short / one long / empty against 1..3 requested items
+	for ni := 1; ni <= 3; ni++ {
+		for _, nr := range []int{0, ni - 1, ni, ni + 1} {
+			if nr < 0 {
+				continue
+			}
+			add("monitor", map[string]int{"nitems": ni, "nres": nr}, nil)
+			add("monadd", map[string]int{"nitems": ni, "nres": nr}, nil)
+			add("modify", map[string]int{"nhave": 3, "nmod": ni, "nres": nr}, nil)
+			add("transfer", map[string]int{"nsubs": 1, "nitems": ni, "tkind": 0, "tnres": 1, "tinvalid": 1, "nres": nr}, nil)
+		}
+	}
+	for _, nr := range []int{0, 1, 2} {
+		add("cancel", map[string]int{"nres": nr}, nil)
+		add("call", map[string]int{"nres": nr}, nil)
+		for nt := 0; nt <= 1; nt++ {
+			add("translate", map[string]int{"nres": nr, "ntargets": nt}, nil)
+		}
+		for ns := 1; ns <= 2; ns++ {
+			add("transfer", map[string]int{"nsubs": ns, "nitems": 1, "tkind": 0, "tnres": nr + ns - 1, "tinvalid": 0, "nres": 1}, nil)
+		}
+	}
+	// every helper on an absent value, a null value and an empty array
+	for h := 0; h < 9; h++ {
+		add("attr", map[string]int{"helper": h, "nres": 1, "hasval": 0}, nil)
+		add("attr", map[string]int{"helper": h, "nres": 1, "hasval": 1, "vk": 0}, nil)
+		add("attr", map[string]int{"helper": h, "nres": 1, "hasval": 1, "vk": 6}, nil)
+		add("attr", map[string]int{"helper": h, "nres": 0}, nil)
+	}
+	// publish: acknowledgement results longer / shorter than the pending list, after a data notification
+	add("publish", nil, []int{0, 1, 0, 1, 0, 0, 1, 0, 1, 0})
+	add("publish", nil, []int{0, 1, 0, 1, 0, 0, 1, 2, 1, 0})
+	add("publish", nil, []int{0, 1, 0, 2, 0, 0, 1, 3, 0, 0, 0, 1, 0, 1, 2})
+	return cs
+}
+
 func c21Main(seed uint64, n int, replay string) {
 	r := rng.New(seed)
 	var cases []*Case
@@ -462,7 +521,8 @@ func c21Main(seed uint64, n int, replay string) {
 		}
 		cases = []*Case{rp.Case}
 	} else {
-		for i := 0; i < n; i++ {
+		cases = append(cases, c21Directed()...)
+		for i := len(cases); i < n; i++ {
 			cases = append(cases, c21Gen(r, i))
 		}
 	}
@@ -491,11 +551,32 @@ func c21Main(seed uint64, n int, replay string) {
 						os.Exit(3)
 					}
 				}
-				res, alive := p.run(c, 30*time.Second)
+				res, alive := p.run(c, 40*time.Second)
 				if !alive {
 					p = nil
 				}
 				srv.Close()
+				// a set-up step (Connect / Subscribe / first Monitor) timing out on a loaded machine is not an observation
+				// of the operation under test: run the case once more
+				for try := 0; try < 2 && (res.Outcome == "setup-error" || res.Outcome == "hang"); try++ {
+					cs = &c21srv{c: c}
+					srv, err = scriptsrv.New(nil, nil, cs.handle)
+					if err != nil {
+						break
+					}
+					cs.srv = srv
+					c.URL = srv.URL
+					if p == nil {
+						if p, err = startChild(); err != nil {
+							break
+						}
+					}
+					res, alive = p.run(c, 60*time.Second)
+					if !alive {
+						p = nil
+					}
+					srv.Close()
+				}
 				emit(map[string]interface{}{"case": c, "outcome": res.Outcome, "err": res.Err, "obs": res.Obs, "panic": res.Panic, "where": res.Where})
 			}
 			if p != nil {
@@ -518,7 +599,7 @@ func newClient(url string, reconnect bool, extra ...opcua.Option) (*opcua.Client
 		opcua.SecurityMode(ua.MessageSecurityModeNone),
 		opcua.AutoReconnect(reconnect),
 		opcua.ReconnectInterval(30 * time.Millisecond),
-		opcua.RequestTimeout(1500 * time.Millisecond),
+		opcua.RequestTimeout(4 * time.Second),
 		opcua.DialTimeout(2 * time.Second),
 	}
 	opts = append(opts, extra...)
